@@ -39,7 +39,7 @@ class _Incomer(object):
 
 
 def run_impl(kind, method, ops, maxline=65536):
-    """ops: bytes = msg.extend + parse(); "c" = close(); "n" = makeParser() + parse(); "p" = parse()"""
+    """ops: bytes = msg.extend + parse(); "c" = close(); "n" = makeParser() + parse(); "m" = makeParser(); "p" = parse()"""
     from ioflo.aio.http import httping, serving, clienting
     old = httping.MAX_LINE_SIZE
     httping.MAX_LINE_SIZE = maxline
@@ -53,6 +53,9 @@ def run_impl(kind, method, ops, maxline=65536):
         for op in ops:
             if op == "c":
                 p.close()
+                continue
+            if op == "m":                      # makeParser() only: what Patron.serviceResponse does
+                p.makeParser()
                 continue
             if op == "n":
                 p.makeParser()
@@ -264,8 +267,8 @@ class CHECK(core.Check):
                "netloc has no brackets and no non-ASCII characters)",
                "the Requestant's incomer is a stub object with a .timeout attribute",
                "the tree checked is /repo with fixes D19-parseline-earliest-eol, D16-parseleader-colon, "
-               "D29a-chunk-ext-unhashable, D29b-respondent-100-continue applied; whether D18 (parseMessage catches "
-               "ValueError) is applied is detected and the matching model variant is used for the damaged-input tie"]
+               "D29a-chunk-ext-unhashable, D29b-respondent-100-continue applied, D18-parsemessage-valueerror, "
+               "D29c-parsemessage-reset-parms-trails applied (all committed in /repo)"]
     PARTIAL = ["the theorems take as hypotheses what the parser's own line functions read in each line (ReqHead, RspHead, "
                "Chunk.wf: parseRequestLine/parseStatusLine, headerLine folded over the header lines, chunkLine); "
                "C29_header_ows, C29_request_line and C29_chunk_size_line discharge them for canonically written header "
@@ -273,10 +276,8 @@ class CHECK(core.Check):
                "evaluation in the examples only",
                "lines are CRLF terminated, contain no bare CR/LF and are shorter than MAX_LINE_SIZE (at exactly "
                "MAX_LINE_SIZE bytes + CR the code's LineTooLong test depends on whether the LF has arrived)",
-               "the content of a second message parsed by a reused parser (makeParser) is judged by the oracle only on a "
-               "tree with fixes/D29c-parsemessage-reset-parms-trails.patch (without it .parms/.trails of the previous "
-               "message survive: reported defect, replay replays/C29-D29c-unpatched.json with C29_JUDGE_REUSE=1); the "
-               "model follows whichever tree is under test",
+               "histories of a reused parser (close / makeParser / idle parse in the orders Patron and Valet produce) are "
+               "in the model and judged by the oracle; the theorems cover makeParser + parse (C29_reused_parser_is_fresh)",
                "responses with Content-Type text/event-stream (body handed to EventSource, see C33) and request targets "
                "whose netloc has brackets or non-ASCII characters are explicitly outside the model ('unmodelled')"]
     TECHNIQUE = ("Lean 4 theorems (generic script theorem for a resumable parser: a stream that is a sequence of segments "
@@ -316,12 +317,17 @@ class CHECK(core.Check):
             if r < 0.38:
                 yield self._pipelined(rng)
                 continue
+            if r < 0.46:
+                yield self._history(rng)
+                continue
             kind = rng.choice(["req", "rsp"])
             m = gen_message(rng, kind)
             rest = rng.choice([b"", b"", b"GET /next HTTP/1.1\r\n", b"\r\n", b"X", b"HTTP/1.1 200 OK\r\n\r\n"]) if not m["needs_close"] else b""
             total = m["stream"] + rest
             k = rng.choice([0, 1, 1, 2, 2, 3, 5, 9])
             cuts = sorted(rng.sample(range(len(total) + 1), min(k, len(total) + 1)))
+            if cuts and rng.random() < 0.3:      # an empty piece = a parse() pass with no new bytes
+                cuts = sorted(cuts + [rng.choice(cuts) for _ in range(rng.choice([1, 2]))])
             yield self._mk(kind, m["method"], m["stream"], cuts, rest=rest, close=m["needs_close"], expect=m["expect"])
 
     def _outside(self, kind, stream):
@@ -365,6 +371,32 @@ class CHECK(core.Check):
             for i in range(n + 1):
                 for j in range(i, n + 1):
                     yield self._mk(kind, method, stream, [i, j], rest=rest, close=close, expect=expect)
+        for c in self._fixed_histories(tier):
+            yield c
+
+    def _fixed_histories(self, tier):
+        first = {"stream": b"HTTP/1.0 200 OK\r\nA:b\r\n\r\nbody", "needs_close": True, "method": "GET"}
+        nxt = [{"stream": b"HTTP/1.1 200 OK\r\nContent-Length: 3\r\n\r\nabc", "needs_close": False, "method": "GET",
+                "expect": {"start": ["11", "200", "OK"], "headers": [["content-length", "3"]], "body": "616263",
+                           "parms": None, "trails": None}},
+               {"stream": b"HTTP/1.1 200 OK\r\nTransfer-Encoding: chunked\r\n\r\n2\r\nhi\r\n0\r\n\r\n", "needs_close": False,
+                "method": "GET", "expect": {"start": ["11", "200", "OK"], "headers": [["transfer-encoding", "chunked"]],
+                                            "body": "6869", "parms": [], "trails": None}}]
+        for m2 in nxt:
+            n = len(m2["stream"])
+            for between in (["m"], ["m", "c"], ["m", "c", "c"], ["m", "p"], ["n"], ["n", "p"]):
+                for i in range(n + 1):
+                    js = range(i, n + 1) if tier == "thorough" else (i, min(n, i + 7))
+                    for j in js:
+                        yield self._history(None, kind="rsp", m1=first, m2=m2, between=between, cuts2=[i, j])
+        reqs = [{"stream": b"GET /a HTTP/1.1\r\nHost: h\r\n\r\n", "needs_close": False, "method": "GET"},
+                {"stream": b"POST /b HTTP/1.1\r\nContent-Length:2\r\n\r\nhi", "needs_close": False, "method": "GET",
+                 "expect": {"start": ["POST", "/b", "11"], "headers": [["content-length", "2"]], "body": "6869",
+                            "parms": None, "trails": None}}]
+        n = len(reqs[1]["stream"])
+        for between in (["m"], ["m", "p"], ["m", "p", "p"], ["n"]):
+            for i in range(0, n + 1, 1 if tier == "thorough" else 3):
+                yield self._history(None, kind="req", m1=reqs[0], m2=reqs[1], between=between, cuts2=[i, i])
 
     def search(self, rng, n, tier):
         for i in range(n):
@@ -433,7 +465,45 @@ class CHECK(core.Check):
         c["next_at"] = nxt
         return c
 
+    def _history(self, rng, kind=None, m1=None, m2=None, between=None, cuts2=None):
+        """a reused parser as its owner drives it.  Patron (rsp): response 1 (maybe read until close: close(), parse()),
+        serviceResponse re-makes the parser (makeParser only), serviceAll may call close() again while the connector
+        is still cut off, then the next response arrives.  Valet (req): serviceReps re-makes the parser, serviceReqs
+        calls parse() on every pass whether or not bytes came."""
+        kind = kind or rng.choice(["req", "rsp"])
+        if m1 is None:
+            m1 = gen_message(rng, kind)
+            m2 = gen_message(rng, kind)
+            while m1["method"] != m2["method"] or (kind == "req" and m1["needs_close"]):
+                m1 = gen_message(rng, kind)
+        ops = []
+        s1 = m1["stream"]
+        for p in pieces_of(s1, sorted(rng.sample(range(len(s1) + 1), rng.choice([0, 1, 2]))) if rng else []):
+            ops.append("f" + hx(p))
+        if m1["needs_close"]:
+            ops += ["c", "p"]
+        if between is None:
+            if kind == "rsp":
+                between = ["m"] + ["c"] * rng.choice([0, 1, 1, 2])
+            else:
+                between = ["m"] + ["p"] * rng.choice([0, 1, 2])
+        ops += between
+        h2 = len(ops)
+        s2 = m2["stream"]
+        if cuts2 is None:
+            cuts2 = sorted(rng.sample(range(len(s2) + 1), min(len(s2) + 1, rng.choice([0, 1, 2, 3]))))
+            if cuts2 and rng.random() < 0.4:
+                cuts2 = sorted(cuts2 + [rng.choice(cuts2)])
+        for p in pieces_of(s2, cuts2):
+            ops.append("f" + hx(p))
+        if m2["needs_close"]:
+            ops += ["c", "p"]
+        return {"kind": kind, "method": m2["method"], "max": 65536, "history": ops, "h2": h2, "expect": m2["expect"],
+                "stream": hx(s2), "rest": "-", "cuts": list(cuts2), "close": m2["needs_close"], "next": False}
+
     def _ops(self, case):
+        if "history" in case:
+            return [o if o in ("c", "p", "m", "n") else unhx(o[1:]) for o in case["history"]]
         total = unhx(case["stream"]) + unhx(case["rest"])
         ops = list(pieces_of(total, case["cuts"]))
         if case.get("next"):
@@ -446,32 +516,9 @@ class CHECK(core.Check):
     def impl(self, case):
         return run_impl(case["kind"], case["method"], self._ops(case), case["max"])
 
-    _d18 = None
-
-    def _has_d18(self):
-        """does Parsent.parseMessage of the tree under test catch ValueError (fixes/D18-…)?  The model has both
-        behaviours (driver kinds `req` / `req!`); C29 itself does not depend on it (well-formed messages raise
-        nothing), only the model/code tie on damaged input does."""
-        if CHECK._d18 is None:
-            out = run_impl("req", "GET", [b"POST / HTTP/1.1\r\nTransfer-Encoding: chunked\r\n\r\nzz\r\n"])
-            CHECK._d18 = "escaped=~" in out[0]
-        return CHECK._d18
-
-    _d29c = None
-
-    def _has_d29c(self):
-        """does parseMessage reset .parms/.trails (fixes/D29c-…)?  Detected like D18; the oracle below judges
-        reused parsers, the model follows whichever tree is under test."""
-        if CHECK._d29c is None:
-            out = run_impl("req", "GET", [b"POST /a HTTP/1.1\r\nTransfer-Encoding: chunked\r\n\r\n0\r\nT: 1\r\n\r\n"
-                                          b"GET /b HTTP/1.1\r\n\r\n", "n"])
-            CHECK._d29c = "trails N" in out
-        return CHECK._d29c
-
     def requests(self, case):
         ops = [o if isinstance(o, str) else "f" + hx(o) for o in self._ops(case)]
-        sfx = ("" if self._has_d18() else "!") + ("" if self._has_d29c() else "~")
-        return ["%s%s %s %d %s" % (case["kind"], sfx, case["method"], case["max"], " ".join(ops))]
+        return ["%s %s %d %s" % (case["kind"], case["method"], case["max"], " ".join(ops))]
 
     def model_post(self, case, replies):
         return replies[0].split(" | ")
@@ -480,19 +527,17 @@ class CHECK(core.Check):
         exp = case.get("expect")
         if exp is None:
             return None
-        if case.get("next") and not self._has_d29c() and not os.environ.get("C29_JUDGE_REUSE"):
-            # a reused parser keeps .parms/.trails of the previous message until fixes/D29c-… is applied (reported
-            # defect, replay replays/C29-D29c-unpatched.json); the reused-parser content check starts with that fix
-            if not getattr(CHECK, "_noted", False):
-                CHECK._noted = True
-                print("NOTE property=C29 fixes/D29c-parsemessage-reset-parms-trails.patch not applied: "
-                      "parms/trails of a reused parser are not judged in this run")
-            return None
         if out and out[0].startswith("HARNESS-EXC"):
             return "adapter raised: " + out[0]
         total = unhx(case["stream"]) + unhx(case["rest"])
-        whole = run_impl(case["kind"], case["method"], [total] + (["n"] if case.get("next") else []) +
-                         (["c", "p"] if case.get("close") else []), case["max"])
+        if "history" in case:
+            h = case["history"]
+            tail = ["c", "p"] if case.get("close") else []
+            whole = run_impl(case["kind"], case["method"],
+                             [o if o in ("c", "p", "m", "n") else unhx(o[1:]) for o in h[:case["h2"]]] + [total] + tail, case["max"])
+        else:
+            whole = run_impl(case["kind"], case["method"], [total] + (["n"] if case.get("next") else []) +
+                             (["c", "p"] if case.get("close") else []), case["max"])
         if out != whole:
             d = [(a, b) for a, b in zip(out, whole) if a != b][:2]
             return "split-dependent: cuts %r: %r" % (case["cuts"], d or (out[-2:], whole[-2:]))
